@@ -4,6 +4,7 @@
      dictsumchain <sum>                   ->  ok <chain>
      rtl <n>                              ->  ok <chain>
      dumpconfig                           ->  ok <names of the ensemble joined by ';'>
+     parallel <limit> <n> <alg;..> <observed;..> ->  ok <name> <execute result> ; <name> <execute result> ; ...
    <alg name> is the Go String() of the algorithm; it is parsed back into an alg_cfg and the parse is
    accepted only if alg_name of the result is the very same string.
    <observed> is the sum as dict.primitive returned it (the order Go's sort.Slice left): a list of
@@ -205,6 +206,20 @@ Definition run (line : list N) : list N :=
         match parse_dsum a, pseq b, parse_observed c with
         | Some s, Some ch, Some orc => print_outcome print_prim (primitive s ch orc)
         | _, _, _ => r_badcase
+        end
+      else r_badcase
+  | [f; l; b; a; c] =>
+      (* parallel <limit> <n> <alg;...> <observed;...>: exec.Parallel returns the results in the
+         order of the algorithms whatever the limit (C12_returned_complete) *)
+      if str_eqb f $"parallel" then
+        match parse_decN l, parse_hexZ b, map_opt parse_alg (split semicolon a),
+              map_opt parse_observed (split semicolon c) with
+        | Some lim, Some n, Some algs, Some orcs =>
+            if (lim =? 0) || (n <? 0)%Z || negb (Nat.eqb (length algs) (length orcs)) then r_badcase
+            else r_ok (join [sp; semicolon; sp]
+                   (map (fun ao => alg_name (fst ao) ++ [sp] ++ print_exec (execute (fst ao) n (snd ao)))
+                        (combine algs orcs)))
+        | _, _, _, _ => r_badcase
         end
       else r_badcase
   | _ => r_badcase
